@@ -778,6 +778,9 @@ class TraceManager:
         removed = self.refgraph.remove_with_descs(ref)
         for node in removed:
             descs = self.tracegraph.remove_with_descs(node)
+            # The cleared dependents may have read other references:
+            # their edges must not outlive their values
+            self.refgraph.remove_with_referred(descs)
             for desc in descs:
                 desc[OBJ].on_clear_trace(desc[KEY])
 
